@@ -1,6 +1,7 @@
 (* Props_C01.v — C01: the transmission spectrum equals the documented transit-depth integral. *)
 From Coq Require Import Reals List Lra.
 From TV Require Import Num ListNum ListNumR Model_C01 Proofs_C01.
+From TV Require Import NumIv Reflect.
 Import ListNotations.
 Local Open Scope R_scope.
 
@@ -74,3 +75,11 @@ Theorem C01_path_new_sound : forall Rp z dz zb l,
   = 2 * @half_chord R RTNum (Rp + @nth_d R RNum zb (length z)) (Rp + (@nth_d R RNum z l + @nth_d R RNum dz l / 2)).
 Proof. intros. apply path_new_sound; assumption. Qed.
 Print Assumptions C01_path_new_sound.
+
+(* ---- the executed (interval) instance encloses the real-number instance the theorems above are about:
+   Reflect.transfer, proved once for every straight-line kernel from the Interval library's correctness lemmas;
+   `defined` lists the side conditions of the real-number side (non-zero denominators, positive logarithm arguments) ---- *)
+Theorem C01_half_chord_enclosed : forall aI bI a b, encloses aI a -> encloses bI b ->
+  defined [a; b] half_chord_e -> encloses (@half_chord I.type IvTNum aI bI) (@half_chord R RTNum a b).
+Proof. exact half_chord_transfer. Qed.
+Print Assumptions C01_half_chord_enclosed.
